@@ -174,6 +174,10 @@ func (w *concWorld) step(client int, r *rt.Rand, denyPct int) {
 	t := rt.Pick(r, w.types)
 	pid := rt.Pick(r, w.pids)
 	x := r.Intn(100)
+	if churn {
+		// registrations and removals (with nodes) of one pipeline id chase each other
+		x = rt.Pick(r, []int{0, 0, 0, 45, 45, 45, 35, 99})
+	}
 	switch {
 	case x < 30: // register a new version of a pipeline, rooted at its own marker
 		v := int(atomic.AddInt64(&w.ver, 1))
@@ -628,6 +632,9 @@ func renumber(ops []porcupine.Operation) []porcupine.Operation {
 // singleKey restricts the id space to one (type, pipeline id), so that all registrations contend.
 var singleKey bool
 
+// churn restricts the actors to RegisterPipeline / RemovePipelineAndNodes / RemovePipeline (and a few Sends).
+var churn bool
+
 func runConcHistory(run *rt.Run, cr *rt.Rand, nactors, nsenders, nops, denyPct int, noRmPN bool, overwriteOnly bool) (*concWorld, []string) {
 	b, _ := eventlogger.NewBroker()
 	w := &concWorld{b: b, h: &concHist{marks: map[string][]*marker{}}, types: []string{"t0", "t1"}, pids: []string{"p0", "p1", "p2"}, noRmPN: noRmPN}
@@ -720,6 +727,136 @@ func (w *concWorld) stepOverwrite(client int, r *rt.Rand) {
 	w.h.record(h)
 }
 
+// teardown: whatever sequential order the concurrent calls amount to, once everything is quiet and every pipeline
+// has been removed no node is in use any more: RemoveNode of every node id the history registered succeeds or
+// finds the node gone.
+func (w *concWorld) teardown(run *rt.Run, wit func() any) {
+	ctx := context.Background()
+	for _, t := range w.types {
+		for _, pid := range w.pids {
+			w.b.RemovePipeline(eventlogger.EventType(t), eventlogger.PipelineID(pid))
+		}
+	}
+	ids := append([]string{}, sharedIDs...)
+	for v := 1; v <= int(atomic.LoadInt64(&w.ver)); v++ {
+		ids = append(ids, fmt.Sprintf("mk-%d", v))
+	}
+	for _, id := range ids {
+		err := w.b.RemoveNode(ctx, eventlogger.NodeID(id))
+		if err != nil && !errors.Is(err, eventlogger.ErrNodeNotFound) && classify(err) == "inuse" {
+			run.Violation("history-pattern:pinned-after-quiescence", fmt.Sprintf("after the concurrent phase every pipeline was removed, yet RemoveNode(%s) is refused: %v", id, err), wit())
+			return
+		}
+	}
+}
+
+// leanNode is the cheapest possible node: the lean churn below wants as many Broker calls per second as the
+// machine gives, so that the short windows between two critical sections of one call are met by other calls.
+type leanNode struct {
+	typ eventlogger.NodeType
+	n   int64
+}
+
+func (l *leanNode) Process(_ context.Context, e *eventlogger.Event) (*eventlogger.Event, error) {
+	atomic.AddInt64(&l.n, 1)
+	if l.typ == eventlogger.NodeTypeSink {
+		return nil, nil
+	}
+	return e, nil
+}
+func (l *leanNode) Reopen() error              { return nil }
+func (l *leanNode) Type() eventlogger.NodeType { return l.typ }
+
+// c04LeanChurn: G goroutines run tight, unrecorded loops of register-nodes / register-pipeline / remove on one or
+// two pipeline ids; nothing is judged while they run.  After they have quiesced the state must be one some
+// sequential order of the calls could have left: once every pipeline is removed no node may be pinned, a fresh
+// registration is delivered to exactly once, and IsAnyPipelineRegistered agrees.
+func c04LeanChurn(run *rt.Run, r *rt.Rand) {
+	ctx := context.Background()
+	b, err := eventlogger.NewBroker()
+	if err != nil {
+		run.Inconclusive("lean churn: " + err.Error())
+		return
+	}
+	G, iters := r.Range(3, 8), r.Range(2000, 9000)
+	mode, npids, sharedNodes := r.Intn(3), r.Range(1, 2), r.Intn(3) == 0
+	et := eventlogger.EventType("t0")
+	desc := fmt.Sprintf("lean churn: %d goroutines x %d iterations of RegisterNode,RegisterNode,RegisterPipeline,remove(mode %d) on %d pipeline ids, shared nodes=%v", G, iters, mode, npids, sharedNodes)
+	var wg sync.WaitGroup
+	nodeIDs := map[string]bool{}
+	var calls int64
+	for k := 0; k < G; k++ {
+		f, s := fmt.Sprintf("lf%d", k), fmt.Sprintf("ls%d", k)
+		if sharedNodes {
+			f, s = fmt.Sprintf("lf%d", k%2), fmt.Sprintf("ls%d", k%2)
+		}
+		nodeIDs[f], nodeIDs[s] = true, true
+		pid := eventlogger.PipelineID(fmt.Sprintf("lp%d", k%npids))
+		kr := r.Fork()
+		wg.Add(1)
+		go func() {
+			defer wg.Done()
+			for i := 0; i < iters; i++ {
+				b.RegisterNode(eventlogger.NodeID(f), &leanNode{typ: eventlogger.NodeTypeFormatter})
+				b.RegisterNode(eventlogger.NodeID(s), &leanNode{typ: eventlogger.NodeTypeSink})
+				b.RegisterPipeline(eventlogger.Pipeline{EventType: et, PipelineID: pid, NodeIDs: []eventlogger.NodeID{eventlogger.NodeID(f), eventlogger.NodeID(s)}})
+				m := mode
+				if m == 2 {
+					m = kr.Intn(2)
+				}
+				if m == 0 {
+					b.RemovePipelineAndNodes(ctx, et, pid)
+				} else {
+					b.RemovePipeline(et, pid)
+					b.RemoveNode(ctx, eventlogger.NodeID(f))
+					b.RemoveNode(ctx, eventlogger.NodeID(s))
+				}
+			}
+			atomic.AddInt64(&calls, int64(iters)*4)
+		}()
+	}
+	wg.Wait()
+	run.Add("lean_churn_runs", 1)
+	run.Add("lean_churn_calls", int(calls))
+	wit := func() any { return desc }
+	for p := 0; p < npids; p++ {
+		b.RemovePipeline(et, eventlogger.PipelineID(fmt.Sprintf("lp%d", p)))
+	}
+	if b.IsAnyPipelineRegistered(et) {
+		run.Violation("history-pattern:isany-true-after-quiescence", "every pipeline was removed after the churn, yet IsAnyPipelineRegistered is true", wit())
+		return
+	}
+	for id := range nodeIDs {
+		err := b.RemoveNode(ctx, eventlogger.NodeID(id))
+		if err != nil && !errors.Is(err, eventlogger.ErrNodeNotFound) && classify(err) == "inuse" {
+			run.Violation("history-pattern:pinned-after-quiescence", fmt.Sprintf("after the churn every pipeline was removed, yet RemoveNode(%s) is refused: %v", id, err), wit())
+			return
+		}
+	}
+	ff, fs := &leanNode{typ: eventlogger.NodeTypeFormatter}, &leanNode{typ: eventlogger.NodeTypeSink}
+	if err := b.RegisterNode("lfinal-f", ff); err != nil {
+		run.Violation("history-pattern:fresh-registration-refused", "after the churn RegisterNode of a fresh id fails: "+err.Error(), wit())
+		return
+	}
+	b.RegisterNode("lfinal-s", fs)
+	if err := b.RegisterPipeline(eventlogger.Pipeline{EventType: et, PipelineID: "lp0", NodeIDs: []eventlogger.NodeID{"lfinal-f", "lfinal-s"}}); err != nil {
+		run.Violation("history-pattern:fresh-registration-refused", "after the churn RegisterPipeline of fresh nodes fails: "+err.Error(), wit())
+		return
+	}
+	if !b.IsAnyPipelineRegistered(et) {
+		run.Violation("history-pattern:isany-false-with-pipeline", "a pipeline was registered after the churn, yet IsAnyPipelineRegistered is false", wit())
+		return
+	}
+	_, serr := b.Send(ctx, et, "x")
+	if n := atomic.LoadInt64(&fs.n); n != 1 || atomic.LoadInt64(&ff.n) != 1 {
+		run.Violation("history-pattern:delivery-after-quiescence", fmt.Sprintf("a Send after the registration returned reached the pipeline's filter %d and sink %d times (Send error: %v)", ff.n, n, serr), wit())
+		return
+	}
+	if ok, err := b.RemovePipelineAndNodes(ctx, et, "lp0"); !ok || err != nil {
+		run.Violation("history-pattern:final-removal", fmt.Sprintf("RemovePipelineAndNodes of the fresh pipeline returned %v, %v", ok, err), wit())
+	}
+}
+
 func TestC04(t *testing.T) {
 	run := rt.Start(t, "C04")
 	defer run.Finish()
@@ -734,6 +871,21 @@ func TestC04(t *testing.T) {
 		w, desc := runConcHistory(run, cr, nactors, nsenders, nops, denyPct, noRmPN, false)
 		wit := func() any { return desc }
 		w.analyse(run, wit)
+		w.teardown(run, wit)
+		if i%6 == 0 {
+			// every sixth history is followed by a churn history on a single pipeline id, judged by the state
+			// it leaves (linearizability of such single-key histories is the business of the histories above)
+			singleKey, churn = true, true
+			wc, dc := runConcHistory(run, cr, cr.Range(4, 16), 1, cr.Range(100, 300), 0, false, false)
+			singleKey, churn = false, false
+			witc := func() any { return append(dc, "churn on one pipeline id") }
+			wc.teardown(run, witc)
+			run.Add("churn_histories", 1)
+			run.Add("churn_calls", len(wc.h.ops))
+		}
+		if i%10 == 5 {
+			c04LeanChurn(run, cr)
+		}
 		nsend, nreg := 0, 0
 		kinds := map[string]bool{}
 		for _, o := range w.h.ops {
